@@ -80,6 +80,32 @@ def shapes(x):
         return ("?", type(x).__name__)
 
 
+def heavy_for_reference(spec):
+    """reference.qubit decomposes everything to {X,Y,Z,H,CNOT,CZ,RX,RY,RZ,GlobalPhase}: generic unitaries on >= 3 wires, wide multi-controlled
+    gates etc. become thousands of dense matrix products — kept out of its workload (cost only, not a verdict)."""
+    heavy = []
+
+    def walk(s):
+        k = len(s.get("wires", []))
+        if s["t"] in ("qu", "cqu", "diag") and k >= 3:
+            heavy.append(s["t"])
+        if s.get("name") in ("MultiControlledX", "IntegerComparator") and k >= 4:
+            heavy.append(s["name"])
+        if s.get("name") in ("DoubleExcitation", "DoubleExcitationPlus", "DoubleExcitationMinus", "OrbitalRotation", "QubitCarry"):
+            heavy.append(s["name"])
+        if s["t"] == "grover" and k >= 4:
+            heavy.append("grover")
+        if s["t"] == "ctrl" and len(s["control"]) >= 2:
+            heavy.append("ctrl")
+        if "base" in s:
+            walk(s["base"])
+        for f in s.get("factors", []):
+            walk(f)
+    for s in spec["ops"]:
+        walk(s)
+    return bool(heavy)
+
+
 def devices_for(profile, spec, have_lightning):
     n = len(spec["wires"])
     kinds = {m["m"] for m in spec["meas"]}
@@ -87,9 +113,9 @@ def devices_for(profile, spec, have_lightning):
     out = []
     if profile in ("general", "clifford") and n <= 5:
         out.append("default.mixed")
-    if profile == "general" and n <= 4 and len(spec["ops"]) <= 7:
+    if profile == "general" and n <= 4 and len(spec["ops"]) <= 7 and not heavy_for_reference(spec):
         out.append("reference.qubit")
-    if kinds <= {"state", "expval", "var"} and n <= 7 and "probs_op" not in kinds:
+    if kinds <= {"state", "expval", "var"} and n <= 6 and "probs_op" not in kinds:
         out += ["default.tensor/mps", "default.tensor/tn"]
     if profile == "clifford":
         out.append("default.clifford")
@@ -161,7 +187,7 @@ def run(ctx):
     except Exception:  # noqa: BLE001
         have_lightning = False
         ctx.uncovered("device:lightning.qubit", "not importable")
-    N = ctx.n(150, 9000)
+    N = ctx.n(150, 4500)
     for i in range(N):
         if not ctx.more():
             break
@@ -197,7 +223,11 @@ def run(ctx):
                     memo["m"] = "prod-matrix:overlapping-wires"
             if memo["m"]:
                 return memo["m"]
+            if "batch1-squeezed" in mech or (spec["batch"] == 1 and mech.startswith("null-shape")):
+                return "batch1-squeezed:expval"  # default.qubit / default.mixed drop a size-1 broadcast dimension (reported by C26)
             kinds = {m["m"] for m in spec["meas"]}
+            if "reference.qubit" in mech and spec["batch"] and mech.endswith(":shape"):
+                return "reference.qubit:broadcast-shape"
             if "default.tensor" in mech:
                 n = len(spec["dev_wires"])
                 opw = C26.tape_wire_order({**spec, "meas": []}) or []
